@@ -293,7 +293,7 @@ pub fn exec(case: &Case, log: &mut CaseLog) {
     }
 }
 
-fn tuple_strategy(dim: usize) -> BoxedStrategy<Case> {
+pub fn tuple_strategy(dim: usize) -> BoxedStrategy<Case> {
     // families: small integers, dyadic, translated, exactly degenerate constructions
     let n = dim + 2;
     (0u8..6, proptest::collection::vec(proptest::collection::vec(-1024i32..=1024, dim), n), 0u32..=20, any::<[u8; 4]>(), 1u8..=24)
